@@ -3,7 +3,7 @@ from ..core import (Body, callee_name, op_place, op_const, proj_path, leaf_s, OK
 from ..guards import root_ids, same_root, def_call, body_of, const_int
 from ..pipeline import Pipeline, fld, V_LINK, V_LAYOUT, ANCHOR
 
-FMT = {"__agg_all__": True, "__flow_all__": lambda t: (callee_name(t) or "").startswith(("core::fmt::", "std::fmt::", "alloc::fmt::"))
+FMT = {"__agg_all__": True, "__flow_all__": lambda t: (callee_name(t) or "").startswith(("core::fmt::", "std::fmt::", "alloc::fmt::", "core::str::", "std::ffi::OsStr::"))
        or callee_name(t) in ("std::path::Path::join", "std::path::PathBuf::push", "std::path::Path::new", "std::path::Path::to_str",
                              "std::path::PathBuf::from", "std::path::PathBuf::to_str", "std::path::PathBuf::as_path",
                              "std::path::PathBuf::new", "std::string::String::push_str", "std::ops::Add::add",
